@@ -12,7 +12,14 @@ namespace SycVerif.Reactive
 
 /-! ### 1. the invariant -/
 
-/-- a state "at rest" of a program made of signals/scopes and read-only computations -/
+/-- a state "at rest" of a program made of signals/scopes and read-only computations:
+* `Struct r` (`Lemmas/Propagate.lean`): `NoDangling`, `EdgesSym`, and for every live node (`NodeOk`):
+  it holds a value; a node without callback (signal/scope) has `dependencies = []`; a node with
+  `callback = some (eq, cl)` has no children, no cleanups, a `ReadOnly` body whose read handles exist
+  in `cl.env`, are signal/memo handles and are older than the node (`ReadHandlesOk`), and
+  `dependencies = bodyReads cl.env cl.body` (the reads in order, duplicates included);
+* no DFS mark, no dirty flag, no tracker, no batch, empty queue;
+* every node is `locallyConsistent`. -/
 structure StaticArena (r : Root) : Prop where
   struct : Struct r
   unmarked : Unmarked r
@@ -134,7 +141,13 @@ theorem loopInv_start {r : Root} {s : Id} {ns : Node} {v : Int} {rD : Root} {buf
 
 /-! ### 2. the theorem -/
 
-/-- **C01 for static dependency graphs** -/
+/-- **C01 for static dependency graphs.**  Writing `v` into the signal `s` of a `StaticArena`
+(`setSilent`, then `propagateUpdates` with any fuel `≥ size + B + 6`, `B` a bound on the body
+lengths) does not panic and ends in a `StaticArena` again: every live computation is locally
+consistent, nothing is dirty, all marks are `none`.  Moreover (`Evolves`): liveness, callbacks,
+dependency lists, children, cleanups and parents are as before; the values of callback-less nodes
+(signals, scopes) are untouched by the propagation; the trace grew by `ran`, which consists of `run`
+events only, at most one per node (`(runIds ran).Nodup`); a node that did not run kept its value. -/
 theorem C01_static_set {r : Root} {s : Id} {ns : Node} {old : Int} {B fuel : Nat}
     (hA : StaticArena r) (hn : r.get? s = some ns) (hc : ns.callback = none) (hv : ns.value = some old)
     (hB : BodyBound r B) (hf : r.nodes.size + B + 6 ≤ fuel) (v : Int) :
@@ -224,9 +237,9 @@ rests on can be read in one place. -/
 holds a value, the run succeeds with value `evalPureBody`, appends `bodyReads` to the tracker, logs
 `bodyObs`, and changes nothing else in the root. Fuel: body length + 2. -/
 theorem C01_static_runClosure {fuel : Nat} {r : Root} {cl : Closure} {t : List Id} {self : Id}
-    (hro : ReadOnly cl.body) (hok : HandlesOk self cl.env cl.body) (ht : r.tracker = some t)
+    (hro : ReadOnly cl.body) (hok : ReadHandlesOk self cl.env cl.body) (ht : r.tracker = some t)
     (hal : ∀ id ∈ bodyReads cl.env cl.body, ∃ n v, r.get? id = some n ∧ n.value = some v)
-    (hf : bodyLen cl.body + 2 ≤ fuel) :
+    (hf : roBodyLen cl.body + 2 ≤ fuel) :
     ∃ v, evalPureBody r cl.env cl.body 0 = some v ∧
       runClosure fuel r cl =
         .ok ({ r with tracker := some (t ++ bodyReads cl.env cl.body) }, v,
@@ -240,7 +253,7 @@ everything except `dependents` order and gets `dirty` iff the value changed and 
 `NoDangling` and `EdgesSym` still hold; exactly one `run` event is logged (`RunPost`). -/
 theorem C01_static_runNodeUpdate {fuel : Nat} {r : Root} {cur : Id} {n : Node} {eq : EqKind}
     {cl : Closure} {old : Int} (hS : Struct r) (hn : r.get? cur = some n)
-    (hcb : n.callback = some (eq, cl)) (hv : n.value = some old) (hf : bodyLen cl.body + 3 ≤ fuel) :
+    (hcb : n.callback = some (eq, cl)) (hv : n.value = some old) (hf : roBodyLen cl.body + 3 ≤ fuel) :
     ∃ new r', evalPureBody r cl.env cl.body 0 = some new ∧ runNodeUpdate fuel r cur = .ok r' ∧
       RunPost r cur (if eqHolds eq new old then old else new) (!eqHolds eq new old)
         (.run cur (bodyObs r cl.env cl.body) new) r' :=
@@ -265,34 +278,34 @@ theorem C01_static_loop (Pn : List Id) (r : Root) (fuel B : Nat) (hI : LoopInv r
       (runIds ran).Sublist Pn :=
   propagateLoop_static Pn r fuel B hI hB hf
 
-/-! ### 12. a Boolean checker for `StaticArena` (used for the non-vacuity examples) -/
+/-! ### 4. a Boolean checker for `StaticArena` (used for the non-vacuity examples) -/
 
 def readOnlyB : Body → Bool
   | .nil => true
   | .cons s rest => s.readHandle?.isSome && readOnlyB rest
 
-def handlesOkB (self : Id) (env : List Handle) : Body → Bool
+def readHandlesOkB (self : Id) (env : List Handle) : Body → Bool
   | .nil => true
   | .cons s rest =>
     (match s.readHandle? with
      | none => true
      | some h => match env[h]? with
        | none => false
-       | some hd => isValueKind hd.kind && decide (hd.id < self)) && handlesOkB self env rest
+       | some hd => isValueKind hd.kind && decide (hd.id < self)) && readHandlesOkB self env rest
 
 theorem readOnlyB_sound {b : Body} (h : readOnlyB b = true) : ReadOnly b := by
-  fun_induction bodyLen b with
+  fun_induction roBodyLen b with
   | case1 => trivial
   | case2 s rest ih =>
     simp only [readOnlyB, Bool.and_eq_true] at h
     exact ⟨h.1, ih h.2⟩
 
-theorem handlesOkB_sound {self : Id} {env : List Handle} {b : Body} (h : handlesOkB self env b = true) :
-    HandlesOk self env b := by
-  fun_induction bodyLen b with
+theorem readHandlesOkB_sound {self : Id} {env : List Handle} {b : Body} (h : readHandlesOkB self env b = true) :
+    ReadHandlesOk self env b := by
+  fun_induction roBodyLen b with
   | case1 => trivial
   | case2 s rest ih =>
-    simp only [handlesOkB, Bool.and_eq_true] at h
+    simp only [readHandlesOkB, Bool.and_eq_true] at h
     refine ⟨fun hh hs => ?_, ih h.2⟩
     have h1 := h.1
     rw [hs] at h1
@@ -308,7 +321,7 @@ def nodeOkB (j : Id) (n : Node) : Bool :=
   match n.callback with
   | none => decide (n.dependencies = [])
   | some (_, cl) =>
-    n.children.isEmpty && n.cleanups.isEmpty && readOnlyB cl.body && handlesOkB j cl.env cl.body &&
+    n.children.isEmpty && n.cleanups.isEmpty && readOnlyB cl.body && readHandlesOkB j cl.env cl.body &&
     decide (n.dependencies = bodyReads cl.env cl.body)
 
 theorem nodeOkB_sound {j : Id} {n : Node} (h : nodeOkB j n = true) : NodeOk j n := by
@@ -319,7 +332,7 @@ theorem nodeOkB_sound {j : Id} {n : Node} (h : nodeOkB j n = true) : NodeOk j n 
   · rw [hc] at h2
     simp only [Bool.and_eq_true, decide_eq_true_eq, List.isEmpty_iff] at h2
     obtain ⟨⟨⟨⟨a, b⟩, c⟩, d⟩, e⟩ := h2
-    exact ⟨a, b, readOnlyB_sound c, handlesOkB_sound d, e⟩
+    exact ⟨a, b, readOnlyB_sound c, readHandlesOkB_sound d, e⟩
 
 /-- the live nodes with their ids -/
 def liveNodes (r : Root) : List (Id × Node) :=
@@ -357,7 +370,8 @@ theorem staticArenaB_sound {r : Root} (h : staticArenaB r = true) : StaticArena 
 /-- the empty program -/
 example : StaticArena Root.init := staticArenaB_sound (by decide +kernel)
 
-/-- `s = signal 1; m1 = memo(s); m2 = memo(s, m1)`, then two writes -/
+/-- `s = signal 1; m1 = memo(s); m2 = memo(s, m1); p = selector_parity(m2); e = effect(p, s)`,
+then two writes to `s` -/
 def staticDemo : List Stmt :=
   [.signal 1, .memo (.cons (.read 0) .nil), .memo (.cons (.read 0) (.cons (.read 1) .nil)),
    .selector .parity (.cons (.read 2) .nil), .effect (.cons (.read 3) (.cons (.read 0) .nil)),
@@ -369,8 +383,9 @@ def staticDemoCheck (n : Nat) : Bool :=
   | .error _ => false
 
 
-/-! ### non-vacuity -/
+/-! ### 5. non-vacuity -/
 
+/-- the state after each prefix of `staticDemo` (including the two writes) is a `StaticArena` -/
 theorem staticDemo_arena : ∀ n ≤ 7, ∃ r env,
     runOps 60 (staticDemo.take n) Root.init [] = .ok (r, env) ∧ StaticArena r := by
   have key : ∀ n, staticDemoCheck n = true → ∃ r env,
@@ -383,5 +398,11 @@ theorem staticDemo_arena : ∀ n ≤ 7, ∃ r env,
   have hall : (List.range 8).all staticDemoCheck = true := by decide +kernel
   intro n hn
   exact key n (List.all_eq_true.1 hall n (List.mem_range.2 (by omega)))
+
+/-
+`#print axioms` (Lean 4.33.0) of `C01_static_set`, `C01_static_set_exists`, `C01_static_execSet`,
+`C01_static_runNodeUpdate`, `C01_static_schedule`, `C01_static_loop`, `staticDemo_arena`:
+  [propext, Classical.choice, Quot.sound];  of `C01_static_runClosure`: [propext, Quot.sound].
+-/
 
 end SycVerif.Reactive
